@@ -46,6 +46,7 @@ PROBES = [
     "finalize_after_subframe_chunk", "utt_after_too_short", "utt_after_other_dtype", "refusal_at_first",
     "refusal_in_middle", "refusal_before_finalize", "finalize_x3", "full_after_stream", "stream_after_full",
     "empty_chunk_starts_utterance", "refusal_other_dtype", "log_floor_changed_between_utterances",
+    "utterance_after_poisoned_samples",
 ]
 FAULT_KINDS = ["refused_compute_full", "refused_frame_by_frame", "extra_finalize", "empty_delivery"]
 
@@ -81,6 +82,9 @@ def generate(rng, tier, k):
         }
         mode = rng.choice(("stream", "stream", "stream", "full", "fbf"))
         utt = {"signal": sig, "mode": mode, "extra_finalize": rng.choice((0, 0, 0, 1, 2, 3))}
+        if rng.random() < 0.08:
+            # values: a NaN / inf / overflowing sample near the end of this utterance must not outlive its finalize
+            sig["poison"] = {"pos": rng.choice((0.5, 0.9, 0.97, 0.999)), "value": rng.choice(("nan", "inf", "-inf", "huge"))}
         if u and rng.random() < 0.06:
             utt["log_floor"] = rng.choice((1e-3, 1e-8, 0.5))
             sig["kind"] = "impulses"  # mostly exact zeros: the floor is what comes out
@@ -211,6 +215,8 @@ def _execute(scn, keep_trace=False):
         mode = u["mode"]
         tr.log("utt", ui, mode, n, rec["dtype"])
         if prev is not None:
+            if len(prev) > 3 and prev[3]:
+                res.probe("utterance_after_poisoned_samples")
             if prev[0] < L // 2 + 1 and n >= L // 2 + 1:
                 res.probe("utt_after_too_short")
             if prev[1] != rec["dtype"]:
@@ -342,7 +348,7 @@ def _execute(scn, keep_trace=False):
             break
         if ui >= 1 and got_frames:
             later_frames = True
-        prev = (n, rec["dtype"], mode)
+        prev = (n, rec["dtype"], mode, bool(rec.get("poison")))
     res.digest = tr.digest()
     res.events = tr.n
     res.nontrivial = bool(later_frames or res.probes)
@@ -352,7 +358,7 @@ def _execute(scn, keep_trace=False):
 
 def _twin_mem(mem):
     """The twin gets its own array with the same memory layout (summation order may depend on strides)."""
-    return "strided" if mem == "strided" else "copy"
+    return mem + "_w" if mem in ("strided", "swapped") else "copy"
 
 
 def _set_log_floor(value):
